@@ -389,20 +389,43 @@ struct Dec {
     sv: [f64; 3],
     center: Point3,
     n: usize,
+    // the accessor methods of the decomposition, as the library computes them
+    vars: [f64; 3],
+    stdevs: [f64; 3],
+    largest: Vector3,
+    smallest: Vector3,
+    rank_fn: Box<dyn Fn(f64) -> usize + Send>,
+    vec_to_basis: Box<dyn Fn(&Vector3) -> Vector3 + Send>,
 }
 fn decompose(pts: &[Point3], w: Option<&[f64]>, two_d: bool) -> Dec {
     if two_d {
         let p2: Vec<Point2> = pts.iter().map(|p| Point2::new(p.x, p.y)).collect();
         let b = SvdBasis2::from_points(&p2, w);
+        let (va, sd, la, sm) = (b.basis_variances(), b.basis_stdevs(), b.largest().into_inner(), b.smallest().into_inner());
+        let b = std::sync::Arc::new(b);
+        let (b1, b2) = (b.clone(), b.clone());
         Dec {
             basis: [Vector3::new(b.basis[0].x, b.basis[0].y, 0.0), Vector3::new(b.basis[1].x, b.basis[1].y, 0.0), Vector3::z()],
             sv: [b.sv[0], b.sv[1], 0.0],
             center: Point3::new(b.center.x, b.center.y, 0.0),
             n: b.n,
+            vars: [va[0], va[1], 0.0],
+            stdevs: [sd[0], sd[1], 0.0],
+            largest: Vector3::new(la.x, la.y, 0.0),
+            smallest: Vector3::new(sm.x, sm.y, 0.0),
+            rank_fn: Box::new(move |t| b1.rank(t)),
+            vec_to_basis: Box::new(move |u| { let r = b2.vec_to_basis(&Vector2::new(u.x, u.y)); Vector3::new(r.x, r.y, u.z) }),
         }
     } else {
         let b = SvdBasis3::from_points(pts, w);
-        Dec { basis: b.basis, sv: b.sv, center: b.center, n: b.n }
+        let b = std::sync::Arc::new(b);
+        let (b1, b2) = (b.clone(), b.clone());
+        Dec {
+            basis: b.basis, sv: b.sv, center: b.center, n: b.n,
+            vars: b.basis_variances(), stdevs: b.basis_stdevs(), largest: b.largest().into_inner(), smallest: b.smallest().into_inner(),
+            rank_fn: Box::new(move |t| b1.rank(t)),
+            vec_to_basis: Box::new(move |u| b2.vec_to_basis(u)),
+        }
     }
 }
 
@@ -473,6 +496,30 @@ fn svd_case(rng: &mut Rng) {
         // a generic cloud of n ≥ 4 (3-D) points has full rank unless it is very flat; the generator's
         // smallest axis ratio is 1e-2, far above the threshold
         v.require(rank == e, "svd.rank_reflects_dimension", || format!("rank {rank} for a {e}-dimensional set, sv {:?}, tol {rank_tol:e}", d.sv));
+    }
+    // the accessor methods say what the fields say
+    {
+        let last = if two_d { 1 } else { 2 };
+        v.require((d.rank_fn)(rank_tol) == rank, "svd.rank_method_counts_singular_values_above_tol", || format!("{} vs {rank} at tol {rank_tol:e}, sv {:?}", (d.rank_fn)(rank_tol), d.sv));
+        for k in 0..=last {
+            // a threshold strictly between two singular values, and one above them all
+            let t = if rng.chance(0.2) { d.sv[0] * 2.0 + 1.0 } else { d.sv[k] * rng.range(0.3, 0.9) };
+            let want = d.sv[..=last].iter().filter(|s| **s > t).count();
+            v.require((d.rank_fn)(t) == want, "svd.rank_method_counts_singular_values_above_tol", || format!("{} vs {want} at tol {t:e}, sv {:?}", (d.rank_fn)(t), d.sv));
+        }
+        for i in 0..=last {
+            let want = d.sv[i] * d.sv[i] / n as f64;
+            v.require((d.vars[i] - want).abs() <= 1e-12 * want.abs(), "svd.basis_variances_are_sigma_squared_over_n", || format!("axis {i}: {:e} vs {want:e}", d.vars[i]));
+            v.require((d.stdevs[i] - want.sqrt()).abs() <= 1e-12 * want.sqrt(), "svd.basis_stdevs_are_root_of_variance", || format!("axis {i}: {:e} vs {:e}", d.stdevs[i], want.sqrt()));
+        }
+        v.require(d.largest == d.basis[0], "svd.largest_is_the_first_axis", || format!("{:?} vs {:?}", d.largest, d.basis[0]));
+        v.require(d.smallest == d.basis[last], "svd.smallest_is_the_last_axis", || format!("{:?} vs {:?}", d.smallest, d.basis[last]));
+        let u = rvec(rng) * rng.range(0.1, 30.0);
+        let u = if two_d { Vector3::new(u.x, u.y, 0.0) } else { u };
+        let got = (d.vec_to_basis)(&u);
+        for i in 0..=last {
+            v.require((got[i] - d.basis[i].dot(&u)).abs() <= 1e-12 * u.norm(), "svd.vec_to_basis_projects_on_each_axis", || format!("axis {i}: {} vs {}", got[i], d.basis[i].dot(&u)));
+        }
     }
     // round trip of a point
     let q = p3(rng, 30.0) + mean;
